@@ -6,8 +6,8 @@
    categories), literals, arithmetic, I, center, scale, standardize, offset, C/S/T without levels=,
    and (the _gen versions) poly and bs.  Excluded = listed findings: binary/B (KF-C06-2),
    C(x, levels=...) and C(<ordered>) (KF-C06-1); refuted examples in Proofs/PredictionExamples.v.
-   Not proved: the group matrix on rows of D (correspondence + oracle only). *)
-From Verif Require Import Base Tokens Lazy Algebra Frame Eval Design History FrameStructure Prediction.
+   The group matrix is covered as well (C06_new_group_rows_are_training_rows). *)
+From Verif Require Import Base Tokens Lazy Algebra Frame Eval Design History FrameStructure Prediction PredictionGroups.
 From Verif Require Tie.
 Local Close Scope Qc_scope.
 Local Close Scope Q_scope.
@@ -35,6 +35,20 @@ Theorem C06_new_rows_are_training_rows_splines :
     new_common cx mode ds (frame_pick idx D) = Ok (NewRes (pick idx (common_matrix ds)) false).
 Proof. exact design_new_common_pick_gen. Qed.
 
+(* the group-specific matrix: the same rows of the training matrix, the ORIGINAL slices (nothing is
+   widened: no row of the training data belongs to an unseen group), no new factors, no warning *)
+Theorem C06_new_group_rows_are_training_rows :
+  forall extra cx e D na m ds idx mode,
+    extra_allowed extra ->
+    describe e = Ok m -> frame_wf D -> frame_rows D <> 0%nat -> used_cols D m <> [] ->
+    na = NaPass \/ anyb (incomplete_mask D m) = false ->
+    scalar_extras cx -> model_ok_groups extra cx D m ->
+    seln (sel_pick idx) (frame_rows D) <> 0%nat ->
+    design_matrices cx e D na = Ok ds ->
+    new_group cx mode ds (frame_pick idx D) =
+    Ok (NewGroup (pick idx (group_matrix ds)) (group_slices ds) [] false).
+Proof. exact design_new_group_pick_gen. Qed.
+
 (* frozen parameters: the prediction pass consumes exactly the state the training pass recorded,
    in recording order, and computes the selected rows of the training value *)
 Theorem C06_frozen_parameters :
@@ -61,4 +75,5 @@ Proof. exact eval_new_state_unchanged. Qed.
 
 Print Assumptions C06_new_rows_are_training_rows.
 Print Assumptions C06_new_rows_are_training_rows_splines.
+Print Assumptions C06_new_group_rows_are_training_rows.
 Print Assumptions C06_frozen_parameters.
